@@ -10,8 +10,9 @@ pub mod c07;
 pub mod c08;
 pub mod c09;
 pub mod c10;
+pub mod c11;
 
-pub const PROPS: [&str; 10] = ["C01", "C02", "C03", "C04", "C05", "C06", "C07", "C08", "C09", "C10"];
+pub const PROPS: [&str; 11] = ["C01", "C02", "C03", "C04", "C05", "C06", "C07", "C08", "C09", "C10", "C11"];
 
 pub fn lanes(prop: &str) -> Vec<Lane> {
     match prop {
@@ -25,6 +26,7 @@ pub fn lanes(prop: &str) -> Vec<Lane> {
         "C08" => c08::lanes(),
         "C09" => c09::lanes(),
         "C10" => c10::lanes(),
+        "C11" => c11::lanes(),
         _ => vec![],
     }
 }
